@@ -102,3 +102,19 @@ Theorem C01_search_depth_is_source : forall psd ilen,
   /\ search_depth psd ilen = if gt then (input_search_depth_multiplier * ilen)%nat else psd.
 Proof. exact search_depth_is_source. Qed.
 Print Assumptions C01_search_depth_is_source.
+
+(* THE TIE BY TRANSLATION for the read-until functions (ReadUntilFuzzy / Explicit / Prompt / AnyPrompt
+   as the source has them on this run): the early return for an empty input, and one round of each
+   loop for every combination of what can happen in it — the deadline is looked at FIRST, a read
+   error is passed on as it is, an empty read sleeps and goes round, a chunk is appended to
+   everything read, and the round returns EVERYTHING READ exactly when the function's own condition
+   (its source text is pinned: the model's cond_holds for CFuzzy / CExplicit / CPrompt, on the
+   search window of everything read) holds; for ReadUntilAnyPrompt, for every number of patterns
+   and every pattern of matches, exactly when SOME pattern matches that window. *)
+From Scrapli Require Import DecideLang DecideLemmas GeneratedSkel ReadUntilSrc.
+Theorem C01_read_until_is_source :
+  ru_table_ok = true
+  /\ forall done read_ok nb_nil ms,
+       any_run done read_ok nb_nil ms = ru_expected false false done read_ok nb_nil (existsb (fun x => x) ms).
+Proof. split; [exact read_until_is_source | exact read_until_any_is_source]. Qed.
+Print Assumptions C01_read_until_is_source.
